@@ -44,6 +44,8 @@ structure Obs where
   unsent : Nat
   multi : Nat
   stuck : Nat
+  stats : String := "-"
+  early : Nat := 0     -- batch timers that provably fired before BatchTimeout had elapsed (sound bound, 1 ms tolerance)
   deriving Repr
 
 def JReq.applied (r : JReq) : Bool := r.out == "acked" || r.out == "lost1"
@@ -82,7 +84,7 @@ def holdsC08 (cfg : MCfg) (calls : List CDecl) (journal : List JReq) (obs : Obs)
   calls.all (fun c => !mustReject cfg c ||
     (!isAccepted (retOf obs c.id) && c.msgs.all (fun m => journal.all (fun r => !r.keys.contains m.key)))) &&
   -- every accepted message was scheduled and produced without further input
-  obs.unsent == 0
+  obs.unsent == 0 && obs.early == 0
 
 /-! ## C07 -/
 
